@@ -1,3 +1,7 @@
-; finding: property=C08 id=K08d class=error_handled_by_handler_frame_with_no_frame_below replay=findings/C08-K08d.scm vm.rs execute()/call_with_instructions_and_reset_state(): when the frame that carries the handler is the outermost one (call-with-exception-handler written directly in a top-level form) a dummy frame with sp = the handler frame's base is pushed under it and never popped by the handler's return: the rest of the form runs with sp = that base instead of 0 (argument temporaries pending at the handler call shift every local): (f (+ 1 (call-with-exception-handler (lambda (e) 5) (lambda () (error "x"))))) panics "index out of bounds" (vm.rs handle_local) or reads wrong slots; small fix: /verif/.build/C08/proposed-no-dummy-frame-for-toplevel-handler.diff
+; fixed: property=C08 0ad3663d (was finding K08d: a handler found on the outermost frame pushed a dummy frame that was never popped; the rest of the top-level form ran with a wrong stack base); kept as regression programs
 (define (note x) x)
 (note (+ 1 (call-with-exception-handler (lambda (e) 5) (lambda () (error "x")))))
+;;;===
+(define (note x) x)
+(define (go) (let ((v (+ 1 (call-with-exception-handler (lambda (e) 0) (lambda () (error "x")))))) (note v) 0))
+(go)
